@@ -285,8 +285,12 @@ func (d *Distributor) addSomeChain(ctx context.Context, rawChain [][]byte, loadP
 			return loglist3.LogList{}, nil, fmt.Errorf("distributor unable to process cert-chain: %w", err)
 		}
 
-		// Chain might be rooted to the Log which has no root-info yet.
-		return d.usableLl.Compatible(parsedChain[0], nil, d.logRoots), parsedChain, nil
+		// Chain might be rooted to the Log which has no root-info yet: only
+		// those Logs are candidates. (Compatible skips root filtering altogether
+		// for a nil root, which would also select Logs whose known roots do not
+		// include the chain's root.)
+		active := d.usableLl.TemporallyCompatible(parsedChain[0])
+		return active.RootCompatible(nil, d.logRoots), parsedChain, nil
 	}
 	compatibleLogs, parsedChain, err := compatibleLogsAndChain()
 	if err != nil {
